@@ -25,13 +25,19 @@ type simSM struct {
 	name  string
 }
 
-func newSimSM(name, eng string) (*simSM, error) {
+func newSimSM(name, eng, policy string) (*simSM, error) {
 	dir, err := os.MkdirTemp("", "verif-valid-"+name+"-")
 	if err != nil {
 		return nil, err
 	}
 	opts := &node.KVOptions{DataDir: dir, EngType: rockredis.EngType}
 	opts.RockOpts.EngineType = eng
+	if pol, err := common.StringToExpirationPolicy(policy); err == nil {
+		opts.ExpirationPolicy = pol
+		if pol == common.WaitCompact {
+			opts.DataVersion = common.ValueHeaderV1 // wait_compact needs the value header
+		}
+	}
 	engine.FillDefaultOptions(&opts.RockOpts)
 	w := wait.New()
 	mc := node.MachineConfig{}
